@@ -128,6 +128,13 @@ func (b *schemaBuilder) schemaForStruct(typ reflect.Type) (Schema, error) {
 			s = nullableSchema(s)
 		}
 
+		// Field names must be unique within an Avro record.
+		for _, f := range fields {
+			if f.Name == name {
+				return Schema{}, fmt.Errorf("struct %s has more than one field named %q", typ, name)
+			}
+		}
+
 		fields = append(fields, SchemaRecordField{
 			Name: name,
 			Type: s,
